@@ -1,6 +1,7 @@
 (* C17 - Node-label operations agree with their bit-string meaning.
    Property theorems only; every proof is [exact <lemma>]. *)
 From Coq Require Import List Bool NArith.
+From Akd Require Import ElemSet ElemSetFacts InsertRefine BitsLabel.
 From Akd Require Import Bits NodeLabel NodeLabelFacts.
 Import ListNotations.
 Open Scope N_scope.
@@ -40,6 +41,33 @@ Theorem C17_ordering : forall a b, WF a -> WF b -> canonical a = true -> canonic
   nl_cmp a b = shortlex_cmp (bits_of a) (bits_of b).
 Proof. exact nl_cmp_spec. Qed.
 Print Assumptions C17_ordering.
+
+(* element sets: on a sorted set of equal-length labels the binary-search partition and the
+   first/last common prefix are the filter-based / fold-based operations of the unsorted form *)
+Theorem C17_partition_point : forall (A : Type) (p : A -> bool) d l k,
+  boundary p d l k -> partition_point p d l = k.
+Proof. exact @partition_point_spec. Qed.
+Print Assumptions C17_partition_point.
+
+Theorem C17_set_partition : forall s pl,
+  good_set s -> elabs_ok (eset_list s) -> WF pl ->
+  (forall x, In x (eset_list s) -> pord (bits_of pl) (bits_of (e_label x)) <> None) ->
+  eset_list (fst (eset_partition s pl)) = filter (side (bits_of pl) false) (eset_list s) /\
+  eset_list (snd (eset_partition s pl)) = filter (side (bits_of pl) true) (eset_list s) /\
+  good_set (fst (eset_partition s pl)) /\ good_set (snd (eset_partition s pl)).
+Proof. exact eset_partition_spec. Qed.
+Print Assumptions C17_set_partition.
+
+Theorem C17_set_lcp : forall empty s,
+  good_set s -> elabs_ok (eset_list s) -> eset_list s <> [] -> canonical empty = false ->
+  bits_of (eset_lcp empty s) = Spec.lcp_all (ebits (eset_list s)) /\ WF (eset_lcp empty s) /\ canonical (eset_lcp empty s) = true.
+Proof. exact eset_lcp_spec. Qed.
+Print Assumptions C17_set_lcp.
+
+Theorem C17_bits_roundtrip : (forall bs, (length bs <= 256)%nat -> bits_of (nl_of_bits bs) = bs) /\
+  (forall a, WF a -> canonical a = true -> nl_of_bits (bits_of a) = a).
+Proof. exact (conj bits_of_nl_of_bits nl_of_bits_bits_of). Qed.
+Print Assumptions C17_bits_roundtrip.
 
 (* non-vacuity: a label crossing a byte boundary meets the hypotheses *)
 Example C17_hyp_sat :
